@@ -57,8 +57,8 @@ class P(core.Prop):
     check_mod = 'Check.C16'
     spec_mod = 'Check.C16_spec'
     extra_imports = 'From TxVerif Require Import Spec.C16.\n'
-    quick_n = 600
-    thorough_n = 9000
+    quick_n = 500
+    thorough_n = 8000
     shard = 45
     design_ref = '5/C16'
     _quiet = False
@@ -279,20 +279,10 @@ class P(core.Prop):
                    v_exn=N(v['exn']))
 
     def _b(self, b):
-        """byte strings are bound once per case (`let sN := pk [...] in`): the views repeat every
-        fingerprint half a dozen times and literal elaboration is what a case costs"""
-        if isinstance(b, str):
-            b = b.encode('latin-1')
-        b = bytes(b)
-        if b not in self._names:
-            self._names[b] = 's%d' % len(self._names)
-        return self._names[b]
+        return B(b)
 
     def to_coq(self, case, obs):
-        self._names = {}
-        body = self._to_coq(case, obs)
-        lets = ''.join('let %s : bytes := %s in ' % (n, B(b)) for b, n in self._names.items())
-        return '(' + lets + body + ')'
+        return self._to_coq(case, obs)
 
     def _to_coq(self, case, obs):
         docs = L(Pair(L(self._entry(e) for e in d), L(self._b(k) for k in x)) for d, x in zip(case['docs'], case['extra']))
